@@ -747,6 +747,9 @@ orc_program_add_accumulator (OrcProgram *program, int size, const char *name)
 void
 orc_program_set_type_name (OrcProgram *program, int var, const char *type_name)
 {
+  if (program->vars[var].type_name) {
+    free (program->vars[var].type_name);
+  }
   program->vars[var].type_name = strdup(type_name);
 }
 
